@@ -255,6 +255,7 @@ def run(R, tier):
                 continue
             compare_with_model(R, f'C09_{hi}', S2.alg, S2.regs, wrapper, top, probe2, algs.describe(spec))
     reused_objects(R, rng, tier)
+    no_mutation(R, rng, tier)
     symbolic_calls(R, rng, tier)
     large_algebra_histories(R, rng, tier)
     # ---- one thread held inside code generation while another makes the same call ----
@@ -389,6 +390,88 @@ def reused_objects(R, rng, tier):
                             {'algebra': spec, 'reused': True, 'op': op, 'keys': list(ks), 'got': str(g)[:300], 'fresh': str(w)[:300]},
                             f'{op} on a multivector object that was used before and then updated in place (keys {ks}, {"ndarray" if arr else "list"}-backed) in Algebra({algs.describe(spec)}) '
                             f'returned {str(g)[:200]}, fresh operands with the same current values give {str(w)[:200]}')
+
+
+def no_mutation(R, rng, tier):
+    """No operation changes the coefficients of its operands or of any previously returned multivector: chains of operations
+    (pass-through ones first - reverse, grade selection, unary plus, adding 0 - whose results may share coefficient objects
+    with their operand), then augmented assignments (`r += b`, `r -= b`, `r *= b`, ...) and further operators on the results;
+    after every step every operand and every earlier result must still hold the coefficients it had when it was created."""
+    import numpy as np, operator
+    from kingdon import MultiVector
+    passthrough = [('~x', lambda a, x: ~x), ('x.grade(g)', lambda a, x: x.grade(*x.grades[:1])), ('+x', lambda a, x: +x if hasattr(x, '__pos__') else x.grade(*x.grades)),
+                   ('x + 0', lambda a, x: x + 0), ('x * 1', lambda a, x: x * 1), ('x.involute()', lambda a, x: x.involute()),
+                   ('x.filter(...)', lambda a, x: x.filter(lambda v: True)), ('x.map(id)', lambda a, x: x.map(lambda v: v)), ('x - 0', lambda a, x: x - 0)]
+    aug = [('+=', operator.iadd), ('-=', operator.isub), ('*=', operator.imul), ('^=', operator.ixor), ('|=', operator.ior), ('/= 2', None), ('*= 3', None)]
+    for it in range(40 if tier == 'quick' else 600):
+        d = rng.choice((2, 3, 3, 4))
+        spec = {'sig': [rng.choice((1, 1, -1, 0)) for _ in range(d)]}
+        alg = algs.make_impl(spec)
+        canon = [int(k) for k in alg.canon2bin.values()]
+        kind = rng.choice(['ndarray-float', 'ndarray-float', 'list-of-arrays', 'ndarray-int', 'floats', 'ints'])
+        n = rng.choice((1, 3))
+        def operand(keys):
+            vals = [[rng.randint(-4, 4) or 1 for _ in range(n)] for _ in keys]
+            if kind == 'ndarray-float': v = np.array(vals, dtype=float)
+            elif kind == 'ndarray-int': v = np.array(vals, dtype=np.int64)
+            elif kind == 'list-of-arrays': v = [np.array(c, dtype=float) for c in vals]
+            elif kind == 'floats': v = [float(c[0]) for c in vals]
+            else: v = [int(c[0]) for c in vals]
+            return MultiVector.fromkeysvalues(alg, tuple(keys), v)
+        same_keys = rng.random() < 0.7
+        ka = rng.sample(canon, rng.randint(1, min(4, len(canon))))
+        kb = list(ka) if same_keys else rng.sample(canon, rng.randint(1, min(4, len(canon))))
+        objs = []            # (description, object, snapshot)
+        def snap(m):
+            return (tuple(m.keys()), [np.array(v, dtype=float).copy() for v in m.values()])
+        def keep(desc, m):
+            objs.append((desc, m, snap(m)))
+            return m
+        def check(step):
+            for desc, m, (k0, v0) in objs:
+                k1, v1 = snap(m)
+                if k1 != k0 or len(v1) != len(v0) or not all(a_.shape == b_.shape and np.array_equal(a_, b_, equal_nan=True) for a_, b_ in zip(v0, v1)):
+                    R.violation({'clause': 'operand-mutated', 'via': 'chain'},
+                                {'algebra': spec, 'storage': kind, 'step': step, 'victim': desc, 'before': str([v.tolist() for v in v0])[:200], 'after': str([v.tolist() for v in v1])[:200]},
+                                f'{step} changed the coefficients of {desc} ({kind}, keys {list(k0)}) in Algebra({algs.describe(spec)}): {[v.tolist() for v in v0]} -> {[v.tolist() for v in v1]}'[:600])
+                    return False
+            return True
+        a = keep('operand a', operand(ka)); b = keep('operand b', operand(kb))
+        ok = True
+        for step_no in range(3):
+            pname, pf = rng.choice(passthrough)
+            src_desc, src, _ = rng.choice(objs)
+            R.count('history=no-mutation'); R.count('storage=' + kind); R.case(('nomut', it, step_no, pname), True)
+            try:
+                r = pf(alg, src)
+            except Exception:  # noqa   (e.g. grade() of an empty multivector)
+                continue
+            if not check(f'{pname} with x = {src_desc}'):
+                ok = False; break
+            r_desc = f'the result of {pname} on {src_desc}'
+            keep(r_desc, r)
+            aname, af = rng.choice(aug)
+            other = rng.choice([a, b])
+            r0 = r
+            kept_r = objs.pop()                 # r itself: an in-place method may legitimately update the object it is called on
+            try:
+                if af is None:
+                    r = r / 2 if aname.startswith('/') else r * 3
+                    r0 = None
+                else:
+                    r = af(r, other)            # python falls back to r = r <op> other when there is no in-place method
+            except Exception:  # noqa
+                objs.append(kept_r)
+                continue
+            R.count('aug=' + aname)
+            if r is not r0:
+                objs.append(kept_r)             # the name was rebound: the old object is a previously returned multivector
+            # everything else - the operands and every earlier result, which may share coefficient objects with r - must be unchanged
+            if not check(f'`r {aname} {"a" if other is a else "b"}` with r = {r_desc}'):
+                ok = False; break
+            keep(f'the result of `r {aname} ..` on {r_desc}', r)
+        if not ok:
+            continue
 
 
 def large_algebra_histories(R, rng, tier):
